@@ -1149,17 +1149,15 @@ func handleAction(c *webClient, a any) error {
 			if err != nil {
 				return err
 			}
-			tracks := make(
-				[]conn.UpTrack, len(down.tracks),
-			)
-			for i, t := range down.tracks {
-				tracks[i] = t.remote
+			// ask for the connection to be pushed again.  We
+			// cannot push it ourselves, the tracks of the down
+			// connection are only a subset of its tracks.
+			remote, ok := down.remote.(*rtpUpConnection)
+			if ok && remote.client != nil && c.group != nil {
+				remote.client.RequestConns(
+					c, c.group, remote.id,
+				)
 			}
-			c.PushConn(
-				c.group,
-				down.remote.Id(), down.remote,
-				tracks, "",
-			)
 		} else if up := getUpConn(c, a.id); up != nil {
 			c.write(clientMessage{
 				Type: "renegotiate",
